@@ -8,9 +8,15 @@ as broken (never silently skipped).
 Supported
   statements : docstring, Assign (name / tuple target), AugAssign on a local, If/elif/else,
                Return, `pass`-free bodies; an If whose branches do not all return is joined
-               through a tuple of the variables it assigns.
+               through a tuple of the variables it assigns;
+               with "assign_target": "<name or self.attr>" the value assigned to that target inside the
+               function (e.g. `self._process_drift = ...` in an __init__) is the translated result: earlier local
+               assignments become lets, attribute stores and `super().__init__(...)` are skipped (so is a local
+               bound to an untranslatable value, e.g. an object construction); reading a skipped attribute or
+               local later in the same body is refused.
   expressions: int / float literals (floats exact via Fraction(repr)), names, + - * / // % **
-               (literal natural exponent), unary -, not, and/or, comparisons (also chained),
+               (literal natural exponent), unary -, not, and/or, comparisons (also chained; `x in [..]` /
+               `x not in [..]` against a literal list or tuple),
                conditional expressions, tuples, subscripts of tuple-typed *parameters* by a literal,
                max/min/abs/pow/divmod/int/float/floor(a/b), isqrt, calls to other translated functions
                and to declared opaque functions, attribute reads declared in `attrs`.
@@ -21,6 +27,10 @@ Supported
                defines a new vector componentwise (only + - * /, unary -, constants, scalars and the
                elementwise calls np.maximum/np.minimum/np.abs are accepted there); `v[i]` with a
                literal index reads a component; any other use of a vector is refused.
+               `int_names` [local/parameter names of Python int type] + `arrays` {name or attribute text: Coq list}
+               (dom Q only): `arr[i]` with an integer index expression (int literals, int names, + - *)
+               becomes `(qnth arr i)`, comparisons between integer expressions use Z.eqb/Z.ltb/Z.leb, and
+               `np.prod([e for k in range(n)])` becomes `(qprod_range (fun k : Z => e) n)` (Base/QArr.v).
   domains    : "Z" (Python int), "Q" (exact rationals standing for floats), "R" (reals).
 """
 from __future__ import annotations
@@ -56,6 +66,7 @@ class Ctx:
         self.tuple_params = fn.get("tuple_params", {})  # name -> [component coq names]
         self.int_names = set(fn.get("int_names", []))
         self.rename = fn.get("rename", {})
+        self.stored_attrs = set()                 # attributes stored earlier in an "assign_target" body
         # --- opt-in extensions (C18/C20), all fail-closed -------------------------------------
         self.attrs = dict(self.attrs)
         self.attr_assign = bool(fn.get("attr_tail"))     # `self.x = e` becomes `let self_x := e`
@@ -66,6 +77,7 @@ class Ctx:
         self.bexprs.update(fn.get("bexprs", {}))
         self.vectors = {k: list(v) for k, v in fn.get("vectors", {}).items()}  # name/attr text -> component terms
         self.vec_index = None                      # component being translated (elementwise mode)
+        self.arrays = dict(fn.get("arrays", {}))   # name/attr text -> coq term of type list Q (integer subscripts)
         self.ext = None                            # plug-in (spec["ext"] = module with class Ext): sees every node first, None = not handled
 
 
@@ -109,11 +121,15 @@ def expr(ctx: Ctx, e) -> str:
             raise Unsupported(f"vector {src(e)} used where a scalar is expected")
         return ctx.vectors[src(e)][ctx.vec_index]
     if isinstance(e, ast.Name):
+        if e.id in ctx.stored_attrs:
+            raise Unsupported(f"name {e.id} was bound to an untranslatable value")
         if e.id in ctx.consts:
             return ctx.consts[e.id]
         return ctx.rename.get(e.id, e.id)
     if isinstance(e, ast.Attribute):
         s = src(e)
+        if s in ctx.stored_attrs:
+            raise Unsupported(f"attribute {s} is stored earlier in the same body")
         if s in ctx.attrs:
             return ctx.attrs[s]
         if s in ctx.consts:
@@ -156,6 +172,10 @@ def expr(ctx: Ctx, e) -> str:
         return f"(if {bexpr(ctx, e.test)} then {expr(ctx, e.body)} else {expr(ctx, e.orelse)})"
     if isinstance(e, ast.Tuple):
         return "(" + ", ".join(expr(ctx, x) for x in e.elts) + ")"
+    if isinstance(e, ast.Subscript) and isinstance(e.value, (ast.Name, ast.Attribute)) and src(e.value) in ctx.arrays:
+        if ctx.dom != "Q":
+            raise Unsupported("array subscripts are only supported in the Q domain")
+        return f"(qnth {ctx.arrays[src(e.value)]} {zexpr(ctx, e.slice)})"
     if isinstance(e, ast.Subscript):
         if isinstance(e.value, (ast.Name, ast.Attribute)) and src(e.value) in ctx.vectors:
             comps = ctx.vectors[src(e.value)]
@@ -174,6 +194,56 @@ def expr(ctx: Ctx, e) -> str:
     if isinstance(e, (ast.Compare, ast.BoolOp)):
         return bexpr(ctx, e)
     raise Unsupported(f"expression {type(e).__name__}: {src(e)}")
+
+
+def is_int_expr(ctx: Ctx, e) -> bool:
+    """integer-typed expression made of int literals, declared int names and + - * (at least one int name)"""
+    def ok(x):
+        if isinstance(x, ast.Constant):
+            return isinstance(x.value, int) and not isinstance(x.value, bool)
+        if isinstance(x, ast.Name):
+            return x.id in ctx.int_names
+        if isinstance(x, ast.BinOp) and isinstance(x.op, (ast.Add, ast.Sub, ast.Mult)):
+            return ok(x.left) and ok(x.right)
+        if isinstance(x, ast.UnaryOp) and isinstance(x.op, ast.USub):
+            return ok(x.operand)
+        return False
+    return ok(e) and any(isinstance(n, ast.Name) and n.id in ctx.int_names for n in ast.walk(e))
+
+
+def zexpr(ctx: Ctx, e) -> str:
+    """integer (index) expression -> Z term, independent of the function's numeric domain"""
+    if isinstance(e, ast.Constant) and isinstance(e.value, int) and not isinstance(e.value, bool):
+        return f"({e.value})%Z"
+    if isinstance(e, ast.Name) and e.id in ctx.int_names:
+        return ctx.rename.get(e.id, e.id)
+    if isinstance(e, ast.UnaryOp) and isinstance(e.op, ast.USub):
+        return f"(Z.opp {zexpr(ctx, e.operand)})"
+    if isinstance(e, ast.BinOp) and isinstance(e.op, (ast.Add, ast.Sub, ast.Mult)):
+        op = {ast.Add: "Z.add", ast.Sub: "Z.sub", ast.Mult: "Z.mul"}[type(e.op)]
+        return f"({op} {zexpr(ctx, e.left)} {zexpr(ctx, e.right)})"
+    raise Unsupported(f"integer expression {src(e)}")
+
+
+def prod_comprehension(ctx: Ctx, lc) -> str:
+    """np.prod([elt for k in range(n)]) -> (qprod_range (fun k : Z => elt) n)"""
+    if ctx.dom != "Q" or not isinstance(lc, ast.ListComp) or len(lc.generators) != 1:
+        raise Unsupported(f"np.prod of {src(lc)}")
+    g = lc.generators[0]
+    it = g.iter
+    if g.ifs or g.is_async or not isinstance(g.target, ast.Name) or not (
+            isinstance(it, ast.Call) and src(it.func) == "range" and len(it.args) == 1 and not it.keywords):
+        raise Unsupported(f"comprehension {src(lc)}")
+    k = g.target.id
+    if k in ctx.int_names or k in ctx.vectors or k in ctx.arrays:
+        raise Unsupported(f"loop variable {k} shadows a declared name")
+    bound = zexpr(ctx, it.args[0])
+    ctx.int_names.add(k)
+    try:
+        body = expr(ctx, lc.elt)
+    finally:
+        ctx.int_names.discard(k)
+    return f"(qprod_range (fun {k} : Z => {body}) {bound})"
 
 
 def power(ctx: Ctx, a, b) -> str:
@@ -208,6 +278,8 @@ def call(ctx: Ctx, e: ast.Call) -> str:
             return f"(if {bexpr(ctx, kw['where'])} then ({d['div']} {expr(ctx, args[0])} {expr(ctx, args[1])}) else {ctx.elementwise['uninit']})"
     if e.keywords:
         raise Unsupported(f"keyword arguments in {src(e)}")
+    if f == "np.prod" and len(args) == 1 and isinstance(args[0], ast.ListComp):
+        return prod_comprehension(ctx, args[0])
     if f in ctx.calls:
         return "(" + " ".join([ctx.calls[f]] + [expr(ctx, a) for a in args]) + ")"
     if f in ("max", "min") and len(args) >= 2:
@@ -250,7 +322,17 @@ def bexpr(ctx: Ctx, e) -> str:
         parts = []
         left = e.left
         for op, right in zip(e.ops, e.comparators):
-            a, b = expr(ctx, left), expr(ctx, right)
+            if is_int_expr(ctx, left) or is_int_expr(ctx, right):
+                za, zb = zexpr(ctx, left), zexpr(ctx, right)   # both sides must be integer expressions
+                zop = {ast.Lt: f"(Z.ltb {za} {zb})", ast.LtE: f"(Z.leb {za} {zb})", ast.Gt: f"(Z.ltb {zb} {za})",
+                       ast.GtE: f"(Z.leb {zb} {za})", ast.Eq: f"(Z.eqb {za} {zb})", ast.NotEq: f"(negb (Z.eqb {za} {zb}))"}.get(type(op))
+                if zop is None:
+                    raise Unsupported(f"comparison {src(e)}")
+                parts.append(zop)
+                left = right
+                continue
+            a = expr(ctx, left)
+            b = None if isinstance(op, (ast.In, ast.NotIn)) else expr(ctx, right)
             if isinstance(op, ast.Lt):
                 parts.append(f"({d['lt']} {a} {b})")
             elif isinstance(op, ast.LtE):
@@ -263,6 +345,12 @@ def bexpr(ctx: Ctx, e) -> str:
                 parts.append(f"({d['eq']} {a} {b})")
             elif isinstance(op, ast.NotEq):
                 parts.append(f"(negb ({d['eq']} {a} {b}))")
+            elif isinstance(op, (ast.In, ast.NotIn)) and isinstance(right, (ast.List, ast.Tuple)) and right.elts:
+                alts = [f"({d['eq']} {a} {expr(ctx, x)})" for x in right.elts]
+                t = alts[0]
+                for alt in alts[1:]:
+                    t = f"(orb {t} {alt})"
+                parts.append(t if isinstance(op, ast.In) else f"(negb {t})")
             else:
                 raise Unsupported(f"comparison {src(e)}")
             left = right
@@ -458,6 +546,36 @@ def block(ctx: Ctx, stmts, tail: str | None, on_raise: str | None) -> str:
     raise Unsupported(f"statement {type(s).__name__}: {src(s)[:80]}")
 
 
+def assign_target_block(ctx: Ctx, stmts, target: str) -> str:
+    """value assigned to `target` inside a body made of plain assignments (see module docstring)"""
+    if not stmts:
+        raise Unsupported(f"assignment to {target} not found")
+    s, rest = stmts[0], stmts[1:]
+    if isinstance(s, ast.Expr) and isinstance(s.value, ast.Constant) and isinstance(s.value.value, str):
+        return assign_target_block(ctx, rest, target)
+    if isinstance(s, ast.Expr) and isinstance(s.value, ast.Call) and src(s.value.func) == "super().__init__":
+        return assign_target_block(ctx, rest, target)
+    if isinstance(s, ast.Assign) and len(s.targets) == 1:
+        t = s.targets[0]
+        if src(t) == target:
+            return expr(ctx, s.value)
+        if isinstance(t, ast.Attribute):
+            ctx.stored_attrs.add(src(t))
+            return assign_target_block(ctx, rest, target)
+        if isinstance(t, ast.Name):
+            try:
+                v = expr(ctx, s.value)
+            except Unsupported:
+                # a local that cannot be translated (e.g. an object construction) is skipped; reading it later is refused
+                ctx.stored_attrs.add(t.id)
+                return assign_target_block(ctx, rest, target)
+            return f"let {ctx.rename.get(t.id, t.id)} := {v} in\n  {assign_target_block(ctx, rest, target)}"
+        if isinstance(t, ast.Tuple) and all(isinstance(x, ast.Name) for x in t.elts):
+            names = ", ".join(ctx.rename.get(x.id, x.id) for x in t.elts)
+            return f"let '({names}) := {expr(ctx, s.value)} in\n  {assign_target_block(ctx, rest, target)}"
+    raise Unsupported(f"statement before the assignment to {target}: {src(s)[:80]}")
+
+
 def find_function(tree: ast.Module, qual: str) -> ast.FunctionDef:
     parts = qual.split(".")
     scope = tree.body
@@ -505,7 +623,10 @@ def translate_function(tree, spec, fn) -> str:
     declared = fn.get("pyargs")
     if declared is not None and declared != pyargs:
         raise Unsupported(f"{fn['py']}: signature changed: {pyargs} (expected {declared})")
-    body = block(ctx, node.body, None, fn.get("on_raise"))
+    if "assign_target" in fn:
+        body = assign_target_block(ctx, node.body, fn["assign_target"])
+    else:
+        body = block(ctx, node.body, None, fn.get("on_raise"))
     return f"Definition {fn['coq']} {params} : {fn['ret']} :=\n  {body}.\n"
 
 
